@@ -308,3 +308,74 @@ func HarnessC08Lexemes() {
 		vAssert(errs[0].Line() >= 1, "error-has-line")
 	}
 }
+
+// c08Holes: complete templates with one position (marked by the byte 0x01) where a name, an operand or any other
+// code token stands.
+var c08Holes = []string{
+	"{{ \x01 }}", "{{ 1 + \x01 }}", "{{ \x01 + 1 }}", "{{ a.\x01 }}", "{{ \"s\".len(\x01) }}", "{{ [1, \x01] }}",
+	"{{ {\x01: 1} }}", "{{ {k: \x01} }}", "{{ {k: 1, \x01} }}", "{{ x = \x01 }}", "{{ \x01 = 1 }}", "{{ a[\x01] }}", "{{ a ? \x01 : 2 }}",
+	"@if(\x01)x@end", "@if(true)x@elseif(\x01)y@end", "@each(\x01 in [1])x@end", "@each(v in \x01)x@end", "@for(\x01 = 0; i < 1; i++)x@end",
+	"@for(i = 0; \x01; i++)x@end", "@for(i = 0; i < 1; \x01)x@end", "@insert(\x01)x@end", "@insert(\"a\", \x01)", "@reserve(\x01)",
+	"@use(\x01)", "@component(\x01)", "@component(\"c\", \x01)", "@component(\"c\", {k: \x01})", "@component(\"c\")@slot(\x01)x@end@end",
+	"@dump(\x01)", "@each(v in [1])@breakIf(\x01)@end", "@each(v in [1])@continueIf(\x01)@end", "{{ 1; \x01 }}", "{{ -\x01 }}", "{{ !\x01 }}",
+	"{{ (\x01) }}", "{{ a.f(1, \x01) }}", "{{ a\x01 }}", "{{ 1 \x01 2 }}",
+}
+
+// HarnessC08Illegal: a template in which the lexer finds an illegal character is rejected with an error, wherever
+// the character stands (also where the parser takes a name from the token stream).
+func HarnessC08Illegal() {
+	t := c08Holes[vChoice("template", len(c08Holes))]
+	b := vByte("byte")
+	vAssume(b != 0)
+	src := ""
+	for i := 0; i < len(t); i++ {
+		if t[i] == 1 {
+			src += string([]byte{b})
+		} else {
+			src += t[i : i+1]
+		}
+	}
+	illegal := false
+	l := lexer.New(src)
+	for i := 0; i < len(src)+3; i++ {
+		tok := l.NextToken()
+		if tok.Type == token.ILLEGAL {
+			illegal = true
+		}
+		if tok.Type == token.EOF {
+			break
+		}
+	}
+	vCover("lexed")
+	if !illegal {
+		vAssume(false) // the byte is a legal one at this place: nothing is demanded
+	}
+	_, errs := parseStr(src)
+	vCover("error")
+	vAssert(len(errs) > 0, "template-with-an-illegal-character-is-rejected")
+	vAssert(errs[0].Line() == 1, "error-carries-the-line")
+}
+
+
+var c08Odd = []string{
+	"@component({a: 1}.a)", "@component({a: 1}[0])", "@component({} ? 1 : 2)", "@component({a: 1}++)", "@component({a: 1} == {a: 1})",
+	"@component(\"~\")", "@use(\"~\")", "@use(~", "@component(~", "@component(\"c\", {a: 1}.a)", "@component(\"c\", [1])", "@component(\"c\", 1 + 2)",
+	"@use(\"\")", "@component(\"\")", "@insert(\"\")x@end", "@reserve(\"\")", "@insert({a: 1})x@end", "@reserve([1])", "@use(1)", "@slot(1)",
+	"@each(1 in [1])x@end", "@each([v] in [1])x@end", "@for(1; 2; 3)x@break@end", "{{ 1.2.3 }}", "{{ a..b }}", "{{ a.1 }}", "{{ [1,,2] }}", "{{ {a:: 1} }}",
+	"{{ {1: 2} }}", "{{ {\"k\": 1} }}", "{{ f(1) }}", "{{ 1(2) }}", "{{ \"s\"() }}", "{{ a.b.c.d.e() }}", "{{ ((((1)))) }}", "{{ -!-!1 }}", "{{ 1 ? 2 ? 3 : 4 : 5 }}",
+}
+
+// HarnessC08Odd: complete inputs of unusual shape - well-formed pieces combined in places where something else is
+// expected - are parsed (and, when they parse, evaluated) without crashing: a program or an error with a line.
+func HarnessC08Odd() {
+	src := c08Odd[vChoice("input", len(c08Odd))]
+	prog, errs := parseStr(src)
+	vCover("parsed")
+	if len(errs) > 0 {
+		vCover("error")
+		vAssert(errs[0].Line() >= 1, "error-carries-a-line")
+		return
+	}
+	vAssert(prog != nil, "program-or-error")
+	_, _ = EvaluateString(src, map[string]any{"a": 1})
+}
